@@ -81,7 +81,7 @@ fn one<C: Suite>(ctx: &mut Ctx, g: u64, scheme: Scheme, len: usize, li: usize, e
     let ls_ = lscheme(scheme);
     let msg = gen::message(len, content, &mut rng);
     let id = gen::message([8usize, 0, 1, 32, 1024][li % 5], Content::Random, &mut rng);
-    let k = gen::random_scalar(&mut rng);
+    let k = gen::key_for(g, &mut rng); // every fourth case: an edge scalar
     let sk = sk_from_rs::<C>(&k);
     let pk = sk.public_key();
     let ct = match ctx.guard("PublicKey::encrypt_time_lock", || json!({"len":len}), || pk.encrypt_time_lock(ls_, &msg, &id)) {
